@@ -37,6 +37,7 @@ def _(vc):
     vc.ensure("one_categorical_draw_from_the_weights", len(draws) == 1 and draws[0][1] is Wt)
     if len(draws) != 1:
         return
+    vc.ensure("weights_passed_as_probabilities", draws[0][2] == "probs")
     m_t = draws[0][0]
     f, o, n, d = vc.index_consts([F, Ko, N, D])
     m = m_t.elem([n, f, o])
@@ -307,3 +308,47 @@ def _(vc):
     W, Wt = param(vc, "weight", F, (Kk, Kj))
     layer = vc.new(f"{LO_}:TorchTensorDotLayer", Kj * Kq, Kq * Kk, weight=W, semiring=semiring(vc), num_folds=F)
     _second_call_uses_current_weights(vc, layer, W, (F, Kk, Kj), (F, 1, Kj * Kq, N, D))
+
+
+# ------------------------------------------------------------------------------------------------ input layer
+from contracts.C01_kernels import LP, scope_idx
+
+for _p in ("logits", "probs"):
+    def _h(vc, _p=_p):
+        """TorchCategoricalLayer.sample: per fold and unit a category drawn from the Categorical over the LAST axis of the layer's own logits
+        (or log of its probabilities), laid out (F, K, N) with out[f, k, n] = draw[n, f, k]; a second call after the parameter changed draws
+        from the current parameter"""
+        F, K, C, N = vc.int("F", lo=1), vc.int("K", lo=1), vc.int("C", lo=2), vc.int("N", lo=1)
+        P, Pt = param(vc, _p, F, (K, C))
+        layer = vc.new(f"{LP}:TorchCategoricalLayer", scope_idx(vc, F), K, num_categories=C, semiring=semiring(vc), **{_p: P})
+        y = vc.call((layer, "sample"), N)
+        draws = vc.I.__dict__.get("categorical_draws", [])
+        vc.ensure("one_categorical_draw", len(draws) == 1)
+        if len(draws) != 1:
+            return
+        t, probs, kind = draws[0]
+        vc.ensure("parameter_passed_as_logits", kind == "logits")
+        f, k, c = vc.index_consts([F, K, C])
+        if _p == "logits":
+            vc.ensure("drawn_from_the_layers_logits", probs is Pt)
+        else:
+            ok = isinstance(probs, Tensor) and len(probs.shape) == 3
+            vc.ensure("drawn_from_a_tensor_of_the_parameters_shape", ok)
+            if ok:
+                vc.ensure("drawn_from_the_log_of_the_layers_probabilities", probs.elem([f, k, c]) == vc.fn("log", Pt.elem([f, k, c])))
+        if shape_is(vc, y, [F, K, N]):
+            n = vc.index_consts([N], "n")[0]
+            vc.ensure("layout_fold_unit_sample", y.elem([f, k, n]) == t.elem([n, f, k]))
+        Pt2 = vc.tensor(f"{_p}_after_update", (F, K, C))
+        P.__dict__["__vf_call__"] = lambda: Pt2
+        vc.call((layer, "sample"), N)
+        draws = vc.I.__dict__.get("categorical_draws", [])
+        vc.ensure("one_draw_per_call", len(draws) == 2)
+        if len(draws) == 2:
+            p2 = draws[1][1]
+            if _p == "logits":
+                vc.ensure("second_draw_from_the_current_parameter", p2 is Pt2)
+            else:
+                vc.ensure("second_draw_from_the_current_parameter", isinstance(p2, Tensor) and len(p2.shape) == 3 and
+                          p2.elem([f, k, c]) == vc.fn("log", Pt2.elem([f, k, c])))
+    obligation(f"C15.sample.TorchCategoricalLayer.{_p}", "C15", [f"{LP}:TorchCategoricalLayer.sample"])(_h)
